@@ -332,3 +332,40 @@ func outcomeBrief(ref zr.Result) string {
 	}
 	return v.String()
 }
+
+// handCase: a hand-written program with its expected outcome written down ("|" separates
+// acceptable outcomes; "error:*" accepts any error, "error:NN" an error with that code)
+type handCase struct{ name, src, want string }
+
+func (c *Ctx) runHand(tag string, cases []handCase) {
+	reqs := []Req{}
+	for _, h := range cases {
+		r := execReq(h.src)
+		r.Libs = strings.Contains(h.src, "导入《@")
+		reqs = append(reqs, r)
+	}
+	c.runBatches(reqs, 8, func(i int, req *Req, resp *Resp) {
+		c.Eval()
+		h := cases[i]
+		got := resp.Kind
+		if resp.Kind == "value" && resp.Val != nil {
+			got = resp.Val.String()
+		} else if resp.Kind == "error" && resp.Err != nil {
+			got = fmt.Sprintf("error:%d", resp.Err.Code)
+		}
+		c.Nontrivial(tag + "|" + h.name + "|" + resp.Kind)
+		ok := false
+		for _, w := range strings.Split(h.want, "|") {
+			if got == w || (w == "error:*" && resp.Kind == "error") {
+				ok = true
+			}
+		}
+		if !ok {
+			detail := ""
+			if resp.Err != nil {
+				detail = " (" + resp.Err.Msg + ")"
+			}
+			c.Violation(tag+":"+h.name, fmt.Sprintf("%s/%s: the program yields %s%s, expected %s\nprogram:\n%s", tag, h.name, got, detail, h.want, h.src), map[string]interface{}{"req": req})
+		}
+	})
+}
